@@ -31,6 +31,7 @@ type Op struct {
 	Lock   bool   `json:"l,omitempty"`  // ebegin: locked transaction
 	Stream int    `json:"st,omitempty"` // stream slot
 	Fault  string `json:"f,omitempty"`  // precancel | cbPanic | cbErr
+	Ctx    string `json:"x,omitempty"`  // context kind of the call: "" WithCancel | bg Background | timeout WithTimeout(30 s)
 	DB     string `json:"db,omitempty"` // namespace override (watch scenarios)
 	Coll   string `json:"c,omitempty"`  //
 	Start  string `json:"sp,omitempty"` // watch: now | resume:<slot> | after:<slot> | time:<slot> | time0
@@ -134,7 +135,10 @@ type Controller struct {
 // NewController prepares a run of the given scripts (actor i+1 runs scripts[i]) on world w.
 func NewController(w *World, scripts [][]Op, ch Chooser) *Controller {
 	c := &Controller{W: w, Chooser: ch, byGID: map[int64]*actor{}, notify: make(chan struct{}, 1),
-		MaxSteps: 4000, StallLimit: 2 * time.Second,
+		// StallLimit: how long a RUNNABLE actor may go without an event before the run is given up (a
+		// loaded machine or a slow fsync of the FileStore easily takes a second; nothing waits for
+		// this limit unless something is really wrong)
+		MaxSteps: 4000, StallLimit: 15 * time.Second,
 		// pass-through points (recorded, never parked): the semaphore's own hooks, and the points that lie
 		// between an effect that other goroutines can observe (token release, e.txn assignment, tomb.Kill)
 		// and the unlock that ends the same critical section — the model takes release+unlock as ONE
@@ -621,11 +625,22 @@ type Directed struct {
 type Directive struct {
 	Actor int
 	Until string
+	Fault string // non-empty: take this fault option of the actor once (cancel | storeFail | storePanic)
 }
 
 func (d *Directed) Choose(step int, opts []Choice, last Choice) int {
 	for d.i < len(d.Steps) {
 		dv := d.Steps[d.i]
+		if dv.Fault != "" {
+			d.i++
+			d.moved = false
+			for i, o := range opts {
+				if o.Actor == dv.Actor && o.Kind == dv.Fault {
+					return i
+				}
+			}
+			continue
+		}
 		idx := -1
 		for i, o := range opts {
 			if o.Actor == dv.Actor && o.Kind == "go" {
